@@ -11,6 +11,7 @@ NOTE = ("Trusted base: z3 5.1; the engine's fork/replay logic; the numpy/pandas 
         "lru_cache/joblib transparency; the size bounds listed in the evidence file.")
 
 CLAIMED = {
+    "C10": ("2 (C10)", "Enumerated call programs over {update(T/F), predict, update_predict_single, update_predict} after fit, each executed symbolically (batch sizes, overlap, horizon, fh-at-fit flag forked; values and index origin symbolic) on NaiveForecaster variants, a custom-update member, an ensemble and a pipeline; remembered data = union with later values winning, cutoffs, forecasts equal to a fresh fit on the union (or to the old fitted state from the new cutoff), update_predict = the single-step sequence of a twin, cutoff restored."),
     "C08": ("2 (C08)", "ForecastingGridSearchCV / ForecastingRandomizedSearchCV fit executed symbolically (real evaluate, real splitter, real ParameterGrid/clone/set_params) over plain, pipeline (nested f__p) and multiplexer base forecasters with symbolic fold scores; cv_results_ rows, optimality of best_index_ in the declared direction, best_params_/best_score_, refit on the whole series, predict/update/cutoff delegation and NotFittedError without refit are proved on every ordering of the scores."),
     "C09": ("2 (C09)", "EnsembleForecaster (mean/median/min/max), TransformedTargetForecaster (with skip-inverse tags, transform/inverse_transform), MultiplexForecaster, StackingForecaster and two nestings executed symbolically around recording member / transformer / meta-regressor stubs with uninterpreted outputs; forecasts proved equal to the composition of the parts, and the data every inner estimator receives at fit and after an update proved to be in the right representation."),
     "C07": ("2 (C07)", "The real evaluate() executed symbolically with the real expanding / sliding / single-window splitters (symbolic window, step, horizon, index origin, series values), a recording forecaster and an asymmetric uninterpreted scoring function; per fold the row's cutoff, training-window length and score = S(y_true, y_pred), the data handed to fit/update/predict, absence of leakage, X slices and returned data are proved for every path."),
